@@ -80,63 +80,15 @@ enum Step { Ok, Err(PE), Panic(String) }
 fn cq_step(s: &Step) -> String { match s { Step::Ok => "SOk".into(), Step::Err(e) => format!("(SErr {})", cq_pe(e)), Step::Panic(_) => "SPanic".into() } }
 
 // ------------------------------------------------------------------------------------------------
-// PositionedError -> (message, position, additional info).  `additional_info` is a private field without
-// accessor; it is read from the derived Debug output (last field), so the real `From<…> for PositionedError`
+// PositionedError -> (message, position, additional info), the last through the verification hook
+// PositionedError::verif_additional_info (cfg nitrogql_verif), so the real `From<…> for PositionedError`
 // impls are what is observed.
 
 fn tp(p: &Pos) -> (usize, usize, usize, bool) { (p.line, p.column, p.file, p.builtin) }
 
-fn parse_additional(dbg: &str) -> Vec<((usize, usize, usize, bool), String)> {
-    let key = "additional_info: [";
-    let Some(i) = dbg.rfind(key) else { return vec![] };
-    let cs: Vec<char> = dbg[i + key.len()..].chars().collect();
-    let mut k = 0usize;
-    let mut out = vec![];
-    let eat = |k: &mut usize, lit: &str| -> bool {
-        let l: Vec<char> = lit.chars().collect();
-        if cs.len() >= *k + l.len() && cs[*k..*k + l.len()] == l[..] { *k += l.len(); true } else { false }
-    };
-    let num = |k: &mut usize| -> usize { let mut n = 0usize; while *k < cs.len() && cs[*k].is_ascii_digit() { n = n * 10 + cs[*k].to_digit(10).unwrap() as usize; *k += 1; } n };
-    loop {
-        if !eat(&mut k, "(Pos { line: ") { break; }
-        let line = num(&mut k);
-        if !eat(&mut k, ", column: ") { break; }
-        let col = num(&mut k);
-        if !eat(&mut k, ", file: ") { break; }
-        let file = num(&mut k);
-        if !eat(&mut k, ", builtin: ") { break; }
-        let b = if eat(&mut k, "true") { true } else { eat(&mut k, "false"); false };
-        if !eat(&mut k, " }, \"") { break; }
-        let mut st = String::new();
-        while k < cs.len() && cs[k] != '"' {
-            if cs[k] == '\\' && k + 1 < cs.len() {
-                k += 1;
-                match cs[k] {
-                    'n' => st.push('\n'), 'r' => st.push('\r'), 't' => st.push('\t'), '0' => st.push('\0'),
-                    'u' => {
-                        // \u{XXXX}
-                        let mut v = 0u32; k += 1; // '{'
-                        k += 1;
-                        while k < cs.len() && cs[k] != '}' { v = v * 16 + cs[k].to_digit(16).unwrap_or(0); k += 1; }
-                        st.push(char::from_u32(v).unwrap_or('?'));
-                    }
-                    c => st.push(c),
-                }
-                k += 1;
-            } else { st.push(cs[k]); k += 1; }
-        }
-        k += 1; // closing quote
-        if !eat(&mut k, ")") { break; }
-        out.push(((line, col, file, b), st));
-        if !eat(&mut k, ", ") { break; }
-    }
-    out
-}
-
 fn pe(e: PositionedError) -> PE {
-    let dbg = format!("{:?}", e);
     let pos = e.position().map(|p| tp(&p));
-    let add = parse_additional(&dbg);
+    let add = e.verif_additional_info().into_iter().map(|(p, m)| (tp(&p), m)).collect();
     let msg = format!("{}", e.into_inner());
     PE { msg, pos, add }
 }
@@ -343,6 +295,16 @@ fn inject(rng: &mut Rng, root: &Path, b: &mut Built, kind: &str, prefix: &mut Ve
             if !b.proj.plugins.iter().any(|p| p == "nitrogql:model-plugin") { b.proj.plugins.insert(0, "nitrogql:model-plugin".into()); }
             b.proj.schema_files[sj].1.push_str(&format!("type Modelled{serial} @model {{\n  a: Int\n}}\n"));
             f.stage = 5; f.files = vec![sfile];
+        }
+        "schema-twin-unknown-type" => {
+            // the same diagnostic (same message, same line and column) in two schema files: line 1 of each
+            if ns < 2 { return false; }
+            let other = (sj + 1) % ns;
+            b.proj.schema_files[sj].1.insert_str(0, &format!("type TwinA{serial} {{ zz: UndefTwin{serial} }}\n"));
+            b.proj.schema_files[other].1.insert_str(0, &format!("type TwinB{serial} {{ zz: UndefTwin{serial} }}\n"));
+            let ofile = abs(root, &b.proj.schema_files[other].0);
+            f.stage = 4; f.files = vec![sfile];
+            b.proj.faults.push(Fault { kind: "schema-twin-unknown-type".into(), stage: 4, files: vec![ofile], known: vec![], via: None });
         }
         "schema-duplicate" => {
             // a second definition of an object type that exists somewhere in the schema
@@ -621,7 +583,7 @@ fn main() {
     let scratch = fs::canonicalize(&scratch).expect("scratch dir must exist");
     assert!(!scratch.starts_with("/repo") && !scratch.starts_with("/verif"), "scratch directory must be outside /repo and /verif");
     let mut rng = Rng::new(args.seed);
-    let n_projects = if thorough { 1200 } else { 45 };
+    let n_projects = if thorough { 1200 } else { 51 };
     let mut outs: Vec<CaseOut> = vec![];
     let mut stats: BTreeMap<String, u64> = BTreeMap::new();
     let mut bump = |k: &str, n: u64| { *stats.entry(k.to_string()).or_insert(0) += n; };
@@ -637,7 +599,11 @@ fn main() {
         let plan_kinds: Vec<&str> = FAULT_KINDS.iter().chain(KNOWN_FAULT_KINDS.iter()).copied().collect();
         const PAIRS: &[(&str, &str)] = &[("op-unknown-field", "op-unknown-fragment"), ("schema-unknown-type", "schema-unknown-type"),
             ("op-import-missing-file", "op-import-missing-file"), ("op-stray-brace", "op-bad-char"), ("op-wildcard-twice", "op-wildcard-twice"),
-            ("op-unknown-field", "op-unknown-field")];
+            ("op-unknown-field", "op-unknown-field"),
+            // byte-identical copies of a faulty operation file: the same diagnostic at the same line and column in 2–3 files
+            ("op-unknown-field", "@twin-op"), ("op-unknown-fragment", "@twin-op"),
+            // the same unknown type on line 1 of two schema files
+            ("schema-twin-unknown-type", "@none")];
         let mut kinds: Vec<(&str, Option<usize>)> = vec![];
         let mut pair = false;
         if idx % 3 == 0 { /* no fault */ }
@@ -650,7 +616,7 @@ fn main() {
                 let (a, c) = PAIRS[j - plan_kinds.len()];
                 kinds.push((a, Some(0))); kinds.push((c, Some(1))); pair = true;
             } else if rng.chance(1, 12) { kinds.push((*rng.pick(KNOWN_FAULT_KINDS), None)); }
-            else if rng.chance(1, 4) { let (a, c) = *rng.pick(PAIRS); kinds.push((a, Some(0))); kinds.push((c, Some(1))); pair = true; }
+            else if rng.chance(1, 3) { let (a, c) = *rng.pick(PAIRS); kinds.push((a, Some(0))); kinds.push((c, Some(1))); pair = true; }
             else { let k = rng.range(1, if thorough { 4 } else { 2 }); for _ in 0..k { kinds.push((*rng.pick(FAULT_KINDS), None)); } }
         }
         let mut b = base_project(&mut rng, idx, thorough, pair);
@@ -658,7 +624,13 @@ fn main() {
         let nd = b.docs.len();
         let mut prefix: Vec<Vec<String>> = vec![vec![]; nd];
         let mut suffix: Vec<String> = vec![String::new(); nd];
-        for (k, force) in kinds { serial += 1; if inject(&mut rng, &root, &mut b, k, &mut prefix, &mut suffix, serial, force) { bump(&format!("fault_{k}"), 1); } }
+        let mut twin_ops = 0usize;
+        for (k, force) in kinds {
+            serial += 1;
+            if k == "@none" { continue; }
+            if k == "@twin-op" { twin_ops = rng.range(1, 2); continue; }
+            if inject(&mut rng, &root, &mut b, k, &mut prefix, &mut suffix, serial, force) { bump(&format!("fault_{k}"), 1); }
+        }
         // resolving the imports of a file descends into the imported file first: an import fault there is what gets
         // reported for the importing file too (positioned in the imported file)
         let stage7: Vec<String> = b.proj.faults.iter().filter(|f| f.stage == 7).flat_map(|f| f.files.first().cloned()).collect();
@@ -666,6 +638,19 @@ fn main() {
             if let Some(v) = &f.via { if stage7.contains(v) && !f.files.contains(v) { f.files.push(v.clone()); } }
         }
         render_ops(&mut rng, &mut b, &mut prefix, &mut suffix);
+        if twin_ops > 0 {
+            // copies of the first operation file (the one the fault went into), byte for byte
+            let src = b.proj.op_files.iter().find(|(n, _)| n == "ops/q0.graphql").map(|(_, t)| t.clone());
+            let twin_faults: Vec<Fault> = b.proj.faults.iter().filter(|f| f.stage == 8 && f.files.first().map_or(false, |x| x.ends_with("/ops/q0.graphql"))).cloned().collect();
+            if let (Some(src), false) = (src, twin_faults.is_empty()) {
+                for c in 0..twin_ops {
+                    let name = format!("ops/q0_twin{c}.graphql");
+                    for tf in &twin_faults { b.proj.faults.push(Fault { kind: format!("{}-twin", tf.kind), stage: 8, files: vec![abs(&root, &name)], known: vec![], via: None }); }
+                    b.proj.op_files.push((name, src.clone()));
+                    bump("twin_operation_files", 1);
+                }
+            }
+        }
         let p = b.proj.clone();
         bump(&format!("projects_with_{}_faults", p.faults.len().min(3)), 1);
         bump(&format!("schema_files_{}", p.schema_files.len()), 1);
